@@ -126,6 +126,52 @@ func bigFactsInterval(fs []facts.Fact, V ssa.Value) bigInterval {
 			}
 		}
 	}
+	// V.Uint64() compared with a constant — meaningful only for a value known to fit 64 bits
+	// (Uint64 returns the low 64 bits otherwise)
+	fits := false
+	for _, f := range fs {
+		if cl := asCall(f.Cond, "(*math/big.Int).IsUint64"); cl != nil && facts.Term(cl.Call.Args[0]) == vt && f.Pol {
+			fits = true
+		}
+	}
+	if fits {
+		for _, f := range fs {
+			x, op, y, ok := cmpOf(f)
+			if !ok {
+				continue
+			}
+			isU := func(v ssa.Value) bool {
+				cl := asCall(v, "(*math/big.Int).Uint64")
+				return cl != nil && facts.Term(cl.Call.Args[0]) == vt
+			}
+			if kc, isK := strip(y).(*ssa.Const); isK && isU(x) && kc.Value != nil && kc.Value.Kind() == constant.Int {
+				if kb, okb := new(big.Int).SetString(kc.Value.ExactString(), 10); okb {
+					switch op {
+					case token.LEQ:
+						iv.tightenHi(kb)
+					case token.LSS:
+						iv.tightenHi(new(big.Int).Sub(kb, big.NewInt(1)))
+					case token.EQL:
+						iv.tightenLo(kb)
+						iv.tightenHi(kb)
+					}
+				}
+			}
+			if kc, isK := strip(x).(*ssa.Const); isK && isU(y) && kc.Value != nil && kc.Value.Kind() == constant.Int {
+				if kb, okb := new(big.Int).SetString(kc.Value.ExactString(), 10); okb {
+					switch op {
+					case token.LEQ:
+						iv.tightenLo(kb)
+					case token.LSS:
+						iv.tightenLo(new(big.Int).Add(kb, big.NewInt(1)))
+					case token.EQL:
+						iv.tightenLo(kb)
+						iv.tightenHi(kb)
+					}
+				}
+			}
+		}
+	}
 	return iv
 }
 
